@@ -840,7 +840,7 @@ pub fn check(prog: &Program, ex: &Execution, cfg: &OracleCfg) -> OracleOut {
                         }
                         *flat += 1;
                     }
-                    Op::Reent { steps, .. } | Op::Unwind { steps } => {
+                    Op::Reent { steps, .. } | Op::Unwind { steps, .. } => {
                         *flat += 1;
                         walk(steps, flat, ex, out);
                         *flat += 1;
@@ -865,6 +865,11 @@ pub fn check(prog: &Program, ex: &Execution, cfg: &OracleCfg) -> OracleOut {
     // ---- collector state at quiescence ----
     if cfg.check_stats {
         let st = &ex.stats;
+        // span sets held back for one cycle are gone after the two closing cycles of a program,
+        // whatever happened before
+        if st.held_span_sets != 0 {
+            v(&mut out, Cat::Stats, "held-span-sets", format!("the collector still holds {} span sets of traces it does not know, two full cycles after the last operation", st.held_span_sets));
+        }
         let mut want: Vec<usize> = vec![];
         for t in &m.traces {
             if let Some(n) = t.nth_sampled {
@@ -1278,7 +1283,7 @@ fn check_copies(
     fn walk<'a>(ops: impl Iterator<Item = &'a Op>, flat: &mut usize, f: &mut dyn FnMut(usize, &'a Op)) {
         for op in ops {
             match op {
-                Op::ACall { steps, .. } | Op::Reent { steps, .. } | Op::Unwind { steps } => {
+                Op::ACall { steps, .. } | Op::Reent { steps, .. } | Op::Unwind { steps, .. } => {
                     f(*flat, op);
                     *flat += 1;
                     walk(steps.iter(), flat, f);
@@ -1509,7 +1514,7 @@ fn find_elapsed_span(op: &Op, rel: usize) -> Option<u32> {
             });
         }
         *rel -= 1;
-        if let Op::ACall { steps, .. } | Op::Reent { steps, .. } | Op::Unwind { steps } = op {
+        if let Op::ACall { steps, .. } | Op::Reent { steps, .. } | Op::Unwind { steps, .. } = op {
             for s in steps {
                 if let Some(x) = go(s, rel) {
                     return Some(x);
